@@ -424,11 +424,14 @@ package lua
 // converted into a value - the error object of an *ApiError, else the printed panic value, for ANY recovered value (the
 // type assertion is comma-ok) - and handed to the resumer as (false, value) by switchToParentThread(L, 1, true, true),
 // whose own contract says: the coroutine is killed, control and the flag false plus exactly that value go to the resumer.
-//@ func threadRun$1 [C06]
+//@ func threadRun$1 [C03 C06]
 //@ assume threadRun recovery: when the deferred closure runs, the coroutine has a resumer, a current frame and intact representation invariants (whole-execution facts, assumed)
 //@ requires L != nil && Inv_api(L) && L.G != nil && L.currentFrame != nil && L.currentFrame.Fn != nil && L.stack != nil && $inv(L.stack) && $sp(L.stack) >= 1
 //@ requires L.Parent != nil && Inv_api(L.Parent) && L.Parent != L && L.Parent.reg != L.reg && arrid(L.Parent.reg.array) != arrid(L.reg.array) && L.Parent.currentFrame != L.currentFrame
 //@ requires 0 <= L.currentFrame.ReturnBase && L.currentFrame.ReturnBase <= L.currentFrame.LocalBase
+//@ requires uvsValid(L)
+// C03: before the dying coroutine's registers are cleared, every upvalue pointing into them is closed (closeUpvalues(0))
+//@ assert@"L.SetTop(0)" ncalls() >= 1 && callfn(ncalls() - 1) == fnid("(*LState).closeUpvalues") && callargInt(ncalls() - 1, 1) == 0
 //@ assert@"switchToParentThread(L, 1, true, true)" top(L) == base(L) + 1 && L.reg.array[base(L)] == lv && !L.wrapped
 //@ modifies everything
 
@@ -652,3 +655,24 @@ package lua
 //@ noraise
 //@ ensures  same(result, mkNum(v))
 //@ modifies type allocator.*, type iface.*, elems(float64)
+
+// ---------------------------------------------------------------------------
+// Raising an error does not touch captured variables (C03): the variables whose scope the error leaves are closed by
+// whoever catches it (PCall's recovery closes exactly those at and above the base of the protected call; the coroutine
+// recovery closes those of the dying coroutine) - raiseError / Error themselves only build the message and push it.
+// In particular the open upvalues of enclosing, still live activations are NOT closed by an error that is caught below them.
+// ---------------------------------------------------------------------------
+//@ trusted (*LState).where [C03 C05 C17]
+//@ assume where(level, skipg) only reads the call stack and formats "<source>:<line>:" (string assembly not verified)
+//@ noraise
+//@ modifies nothing
+
+//@ func (*LState).raiseError [C03 C05]
+//@ requires ls != nil && ls.reg != nil && Inv_reg(ls.reg) && Inv_api(ls) && uvsValid(ls)
+//@ cut@"ls.Panic(ls)" the panic function (a field of the state) takes over; what PCall's recovery does with it is PCall$1's contract
+//@ modifies ls.reg.array, ls.reg.top, ls.reg.array[*]
+
+//@ func (*LState).Error [C03 C05]
+//@ requires ls != nil && ls.reg != nil && Inv_reg(ls.reg) && Inv_api(ls) && uvsValid(ls) && lv != nil
+//@ cut@"ls.Panic(ls)" as in raiseError
+//@ modifies ls.reg.array, ls.reg.top, ls.reg.array[*]
